@@ -390,7 +390,10 @@ class Interp:
         """["prescope", name, {shield}, body]: a scope cancelled *before* it is entered."""
         w = self.w
         name, o, body = op[1], op[2], op[3]
-        sc = anyio.CancelScope(shield=bool(o.get("shield", False)))
+        kw = {}
+        if o.get("deadline") is not None:
+            kw["deadline"] = w.loop.time() + o["deadline"]
+        sc = anyio.CancelScope(shield=bool(o.get("shield", False)), **kw)
         w.objs[name] = sc
         self._sync(t, opid, "cancel", [name], sc.cancel)
         body_out = ["ok", None]
